@@ -359,3 +359,48 @@ func TestObs_DanglingLocalRef(t *testing.T) {
 	}
 	_ = an
 }
+
+// F18 candidate (C07): operations.OpRefs.Less compares the mangled Key only; two operations whose
+// "method path" mangle to the same Go name tie, and sort.Sort leaves them in map order.
+func TestF18_MangledKeyTie(t *testing.T) {
+	doc := `{"swagger":"2.0","info":{"title":"t","version":"1"},"paths":{
+	 "/a-b":{"get":{"parameters":[{"name":"body","in":"body","schema":{"type":"object","properties":{"x":{"type":"object","properties":{"p":{"type":"string"}}}}}}],"responses":{"200":{"description":"ok"}}}},
+	 "/a_b":{"get":{"parameters":[{"name":"body","in":"body","schema":{"type":"object","properties":{"y":{"type":"object","properties":{"q":{"type":"integer"}}}}}}],"responses":{"200":{"description":"ok"}}}}}}`
+	seen := map[string]int{}
+	for i := 0; i < 60; i++ {
+		sw := load(t, doc)
+		if err := analysis.Flatten(analysis.FlattenOpts{Spec: analysis.New(sw), BasePath: "/tmp/x.json", Minimal: false}); err != nil {
+			t.Fatalf("flatten: %v", err)
+		}
+		b, _ := json.Marshal(sw)
+		seen[string(b)]++
+		for p, pi := range sw.Paths.Paths {
+			if sch := pi.Get.Parameters[0].Schema; sch.Ref.String() == "" {
+				t.Fatalf("the body of GET %s is still inline after a full flatten (C03)", p)
+			}
+		}
+	}
+	if len(seen) != 1 {
+		t.Errorf("Flatten produced %d distinct outputs over 60 runs of the same input", len(seen))
+		for k := range seen {
+			t.Logf("%.400s", k)
+		}
+	}
+}
+
+// F19 candidate (C09): a $ref to a response position of an operation, shared by two callers, reaches
+// SplitKey.BuildName with a start index beyond the key's length.
+func TestF19_PointerToOperationResponse(t *testing.T) {
+	for _, target := range []string{"#/paths/~1pets/get/responses/200", "#/paths/~1pets/get/responses", "#/paths/~1pets/get/parameters/0"} {
+		doc := `{"swagger":"2.0","info":{"title":"t","version":"1"},"paths":{"/pets":{"get":{
+		 "parameters":[{"name":"body","in":"body","schema":{"type":"object","properties":{"a":{"type":"string"}}}}],
+		 "responses":{"200":{"description":"ok","schema":{"type":"object","properties":{"b":{"type":"string"}}}}}}}},
+		 "definitions":{"x":{"type":"object","properties":{"p":{"$ref":"` + target + `"}}},"y":{"type":"object","properties":{"q":{"$ref":"` + target + `"}}}}}`
+		for _, minimal := range []bool{true, false} {
+			sw := load(t, doc)
+			noPanic(t, target, func() {
+				_ = analysis.Flatten(analysis.FlattenOpts{Spec: analysis.New(sw), BasePath: "/tmp/x.json", Minimal: minimal})
+			})
+		}
+	}
+}
